@@ -97,12 +97,15 @@ def gen(rng, tier):
     detector = str(rng.choice(["none", "annular", "flexible", "pixelated", "segmented", "two"]))
     if source == "smatrix" and detector == "none":
         detector = "annular"
+    max_batch = ["auto", "auto", 1, 2][int(rng.integers(0, 4))]
+    if source == "smatrix" and max_batch == 1:
+        max_batch = "auto"              # one plane wave per task: minutes of dask overhead, nothing new for this property
     return {
         "cell": cell, "gpts": G.rand_gpts(rng, 12, 28), "slice_thickness": nominal, "source": source, "num_configs": n,
         "sigma_kind": sk, "sigmas": sv, "seed": seed,
         "directions": str(rng.choice(["xyz", "xyz", "xy", "x", "y", "z", "yx", "zx", "zyx"])),
         "ensemble_mean": bool(rng.random() < 0.5), "exit_planes": ep, "builder": builder, "scan": scan,
-        "detector": detector, "lazy": bool(rng.random() < 0.5), "max_batch": ["auto", "auto", 1, 2][int(rng.integers(0, 4))],
+        "detector": detector, "lazy": bool(rng.random() < 0.5), "max_batch": max_batch,
         "energy": float(rng.choice([60e3, 100e3, 200e3, 300e3])),
         "projection": str(rng.choice(["infinite", "infinite", "infinite", "finite"])),
         "defocus": float(rng.uniform(-50, 80)), "semiangle": float(rng.uniform(12, 28)),
@@ -463,7 +466,8 @@ def check_joint_compute(ctx, case, atoms, fp, ens, refs, ens_mean, kw, n):
     import dask
     twin = _twin_ensemble(case, atoms, fp, n)
     pots = [abtem.Potential(ens, **kw), abtem.Potential(twin, **kw)]
-    lazy = [_simulate(case, p, True, case["max_batch"], compute=False) for p in pots]
+    mb = "auto" if case["builder"] == "smatrix" else case["max_batch"]     # per-plane-wave S-matrix graphs are huge
+    lazy = [_simulate(case, p, True, mb, compute=False) for p in pots]
     if not ctx.expect(len(lazy[0]) == len(lazy[1]) and all(getattr(o, "is_lazy", False) for l in lazy for o in l),
                       "joint-compute:values", what="lazy outputs"):
         return
